@@ -3,6 +3,7 @@ package rules
 // C19 — CopyOnWriteMap: lock discipline, immutable snapshots, single load, no check-then-act.
 
 import (
+	"sort"
 	"go/ast"
 	"go/token"
 	"go/types"
@@ -43,15 +44,13 @@ func CowLockset(c *core.Ctx, rule string) {
 				if !ok {
 					continue
 				}
-				callee := call.Call.StaticCallee()
-				if callee == nil || callee.Pkg == nil || callee.Pkg.Pkg.Path() != "sync/atomic" || callee.Signature.Recv() == nil {
-					continue
-				}
-				switch callee.Name() {
+				am := atomicMethod(&call.Call)
+				switch am {
 				case "Store", "Swap", "CompareAndSwap":
 				default:
 					continue
 				}
+				callee := struct{ name string }{am}
 				n++
 				held := false
 				for k := range lf.held[ins] {
@@ -60,9 +59,9 @@ func CowLockset(c *core.Ctx, rule string) {
 					}
 				}
 				if held {
-					c.Add(rule, name+"/"+callee.Name(), instrPos(ins), core.Discharged, "snapshot published under {"+lf.held[ins].String()+"}")
+					c.Add(rule, name+"/"+callee.name, instrPos(ins), core.Discharged, "snapshot published under {"+lf.held[ins].String()+"}")
 				} else {
-					c.Add(rule, name+"/"+callee.Name(), instrPos(ins), core.Violated, "the snapshot cell is written without the map's mutex: a concurrent copy-on-write based on the previous snapshot overwrites this update (lost update)")
+					c.Add(rule, name+"/"+callee.name, instrPos(ins), core.Violated, "the snapshot cell is written without the map's mutex: a concurrent copy-on-write based on the previous snapshot overwrites this update (lost update)")
 				}
 			}
 		}
@@ -115,6 +114,122 @@ func CowCTA(c *core.Ctx) {
 	p := c.Pkg("mutable")
 	info := p.TypesInfo
 	nRead, nWrite := 0, 0
+	// the primitives are recognised by what they do, not by name: a method that stores into the cell is a writer
+	// primitive (the lazy initialisation, the critical section); a method that loads the cell — directly or through
+	// another loader — is a loader; a storing method that takes a function parameter is the copy-on-write entry
+	loaderNames := map[string]bool{}
+	directStore := map[string]bool{}
+	storerNames := map[string]bool{} // publishes: stores into the cell itself or through another method of the receiver
+	cowNames := map[string]bool{}
+	var cowMethods []*fnBody
+	for _, fb := range funcBodies(c, []*packages.Package{p}) {
+		if fb.Lit == nil && fb.Decl.Recv != nil && core.RecvTypeName(fb.Decl.Recv.List[0].Type) == "CopyOnWriteMap" && len(fb.Decl.Recv.List[0].Names) == 1 {
+			cowMethods = append(cowMethods, fb)
+		}
+	}
+	cellCall := func(fb *fnBody, call *ast.CallExpr, method string) bool {
+		sel, ok := ast.Unparen(call.Fun).(*ast.SelectorExpr)
+		if !ok || sel.Sel.Name != method {
+			return false
+		}
+		inner, ok := ast.Unparen(sel.X).(*ast.SelectorExpr)
+		if !ok || objOf(info, inner.X) != info.Defs[fb.Decl.Recv.List[0].Names[0]] {
+			return false
+		}
+		callee := calleeOf(info, call)
+		return callee != nil && callee.Pkg() != nil && callee.Pkg().Path() == "sync/atomic"
+	}
+	// accessor: a parameterless method that loads the cell and stores into it (lazy initialisation of the empty snapshot)
+	accessor := map[string]bool{}
+	for _, fb := range cowMethods {
+		if fb.Type.Params.NumFields() != 0 {
+			continue
+		}
+		ld, st := false, false
+		ast.Inspect(fb.Body, func(x ast.Node) bool {
+			if call, ok := x.(*ast.CallExpr); ok {
+				if cellCall(fb, call, "Load") {
+					ld = true
+				}
+				if cellCall(fb, call, "Store") {
+					st = true
+				}
+			}
+			return true
+		})
+		if ld && st {
+			accessor[fb.Decl.Name.Name] = true
+		}
+	}
+	for changed := true; changed; {
+		changed = false
+		for _, fb := range cowMethods {
+			name := fb.Decl.Name.Name
+			recv := info.Defs[fb.Decl.Recv.List[0].Names[0]]
+			ast.Inspect(fb.Body, func(x ast.Node) bool {
+				call, ok := x.(*ast.CallExpr)
+				if !ok {
+					return true
+				}
+				if cellCall(fb, call, "Store") || cellCall(fb, call, "Swap") || cellCall(fb, call, "CompareAndSwap") {
+					directStore[name] = true
+					if !storerNames[name] {
+						storerNames[name] = true
+						changed = true
+					}
+				}
+				if cellCall(fb, call, "Load") && !loaderNames[name] {
+					loaderNames[name] = true
+					changed = true
+				}
+				if sel, ok := ast.Unparen(call.Fun).(*ast.SelectorExpr); ok && objOf(info, sel.X) == recv {
+					// the snapshot accessor stores only to initialise lazily: calling it does not make the caller a publisher
+					if storerNames[sel.Sel.Name] && !storerNames[name] && !accessor[sel.Sel.Name] {
+						storerNames[name] = true
+						changed = true
+					}
+					if loaderNames[sel.Sel.Name] && !loaderNames[name] {
+						loaderNames[name] = true
+						changed = true
+					}
+				}
+				return true
+			})
+		}
+	}
+	// the copy-on-write entry: a publishing, unexported method that takes a snapshot transformer func(M) M
+	for _, fb := range cowMethods {
+		name := fb.Decl.Name.Name
+		if !storerNames[name] || token.IsExported(name) {
+			continue
+		}
+		for _, f := range fb.Type.Params.List {
+			if tv, ok := info.Types[f.Type]; ok {
+				if sig, isFn := tv.Type.Underlying().(*types.Signature); isFn && sig.Params().Len() == 1 && sig.Results().Len() == 1 && types.Identical(sig.Params().At(0).Type(), sig.Results().At(0).Type()) {
+					cowNames[name] = true
+				}
+			}
+		}
+	}
+	// reads: the cell's Load, unexported loaders (the snapshot accessor, even when it lazily initialises), and exported
+	// methods that only read
+	var loaderList, cowList []string
+	loaderList = append(loaderList, "Load")
+	for n := range loaderNames {
+		if cowNames[n] {
+			continue
+		}
+		if accessor[n] || !storerNames[n] {
+			loaderList = append(loaderList, n)
+		}
+	}
+	for n := range cowNames {
+		cowList = append(cowList, n)
+	}
+	sort.Strings(loaderList)
+	sort.Strings(cowList)
+	c.Table("R-CTA primitives", "reads: "+strings.Join(loaderList, ","), "copy-on-write entry: "+strings.Join(cowList, ","))
+	cowEntryNames = cowNames
 	for _, fb := range funcBodies(c, []*packages.Package{p}) {
 		if fb.Lit != nil || fb.Decl.Recv == nil || core.RecvTypeName(fb.Decl.Recv.List[0].Type) != "CopyOnWriteMap" || len(fb.Decl.Recv.List[0].Names) != 1 {
 			continue
@@ -165,10 +280,10 @@ func CowCTA(c *core.Ctx) {
 						return false
 					}
 				case *ast.CallExpr:
-					if isRecvCall(s, "copyOnWrite") {
+					if isRecvCall(s, cowList...) {
 						cow = append(cow, s)
 					}
-					if isRecvCall(s, "load", "Load", "Get", "Size", "Iterator") {
+					if isRecvCall(s, loaderList...) {
 						reads = append(reads, s)
 						if inLoop {
 							readInLoop = true
@@ -180,8 +295,11 @@ func CowCTA(c *core.Ctx) {
 		}
 		walk(fb.Body, false, false)
 		name := fb.Name
-		if fb.Decl.Name.Name == "load" || fb.Decl.Name.Name == "copyOnWrite" {
-			continue // the two primitives themselves (double-checked initialisation / the critical section)
+		if directStore[fb.Decl.Name.Name] || cowNames[fb.Decl.Name.Name] || accessor[fb.Decl.Name.Name] {
+			continue // the primitives themselves (double-checked initialisation / the critical section)
+		}
+		if len(cow) == 0 && storerNames[fb.Decl.Name.Name] {
+			continue // publishes through another method of the receiver: judged there
 		}
 		if len(cow) == 0 {
 			if len(reads) == 0 {
@@ -294,8 +412,7 @@ func CowRMW(c *core.Ctx, rule string) {
 	// receiver methods that return what they load from the cell
 	loaders := map[*types.Func]bool{}
 	isCellLoad := func(call *ssa.Call) bool {
-		callee := call.Call.StaticCallee()
-		return callee != nil && callee.Pkg != nil && callee.Pkg.Pkg.Path() == "sync/atomic" && callee.Signature.Recv() != nil && callee.Name() == "Load"
+		return atomicMethod(&call.Call) == "Load"
 	}
 	var methods []*ssa.Function
 	for _, fn := range srcFuncs(c) {
@@ -360,8 +477,7 @@ func CowRMW(c *core.Ctx, rule string) {
 				if !ok {
 					continue
 				}
-				callee := call.Call.StaticCallee()
-				if callee == nil || callee.Pkg == nil || callee.Pkg.Pkg.Path() != "sync/atomic" || callee.Signature.Recv() == nil || (callee.Name() != "Store" && callee.Name() != "Swap" && callee.Name() != "CompareAndSwap") {
+				if am := atomicMethod(&call.Call); am != "Store" && am != "Swap" && am != "CompareAndSwap" {
 					continue
 				}
 				for pi, p := range fn.Params {
@@ -390,8 +506,7 @@ func CowRMW(c *core.Ctx, rule string) {
 		for _, b := range fn.Blocks {
 			for _, ins := range b.Instrs {
 				if call, ok := ins.(*ssa.Call); ok {
-					callee := call.Call.StaticCallee()
-					if callee != nil && callee.Pkg != nil && callee.Pkg.Pkg.Path() == "sync/atomic" && callee.Signature.Recv() != nil && (callee.Name() == "Store" || callee.Name() == "Swap" || callee.Name() == "CompareAndSwap") {
+					if am := atomicMethod(&call.Call); am == "Store" || am == "Swap" || am == "CompareAndSwap" {
 						hasStore = true
 						for _, a := range call.Call.Args[1:] {
 							stored[a] = true
@@ -502,8 +617,7 @@ func CowRMW(c *core.Ctx, rule string) {
 				if !ok {
 					continue
 				}
-				callee := call.Call.StaticCallee()
-				if callee == nil || callee.Pkg == nil || callee.Pkg.Pkg.Path() != "sync/atomic" || callee.Signature.Recv() == nil || callee.Name() != "Store" {
+				if atomicMethod(&call.Call) != "Store" {
 					continue
 				}
 				for d := b.Idom(); d != nil; d = d.Idom() {
@@ -573,7 +687,13 @@ func CowOnePublish(c *core.Ctx, rule string) {
 		}
 		ms = append(ms, meth{fb, info.Defs[fb.Decl.Recv.List[0].Names[0]]})
 	}
-	publishes := map[string]bool{"copyOnWrite": true}
+	publishes := map[string]bool{}
+	for n := range cowEntryNames {
+		publishes[n] = true
+	}
+	if len(publishes) == 0 {
+		publishes["copyOnWrite"] = true
+	}
 	recvCallee := func(m meth, call *ast.CallExpr) string {
 		sel, ok := ast.Unparen(call.Fun).(*ast.SelectorExpr)
 		if !ok || objOf(info, sel.X) != m.recv {
@@ -599,7 +719,7 @@ func CowOnePublish(c *core.Ctx, rule string) {
 	n := 0
 	for _, m := range ms {
 		name := m.fb.Decl.Name.Name
-		if name == "copyOnWrite" || !publishes[name] {
+		if cowEntryNames[name] || name == "copyOnWrite" || !publishes[name] {
 			continue
 		}
 		n++
@@ -781,4 +901,21 @@ func cowEntryLocks(c *core.Ctx) (map[*ssa.Function]lockSet, map[*ssa.Function]lo
 		}
 	}
 	return held, def
+}
+
+// cowEntryNames: the copy-on-write entry methods recognised by CowCTA (a storing method with a function parameter);
+// CowOnePublish runs after it.
+var cowEntryNames = map[string]bool{}
+
+// atomicMethod returns the name of the sync/atomic method a call invokes (Value.Load, Pointer[T].Store, …), "" otherwise.
+// It goes through the types.Func so that methods of instantiated generic types (atomic.Pointer[T]) are recognised.
+func atomicMethod(cc *ssa.CallCommon) string {
+	f := calleeFunc(cc)
+	if f == nil || f.Pkg() == nil || f.Pkg().Path() != "sync/atomic" {
+		return ""
+	}
+	if sig, ok := f.Type().(*types.Signature); !ok || sig.Recv() == nil {
+		return ""
+	}
+	return f.Name()
 }
